@@ -262,7 +262,8 @@ def rule(rng, depth=2, inquiry_rules=True, raising=True):
         return [name]
     if k == 'custom':
         if rng.random() < 0.5:
-            return ['Broken', rng.choice(['ValueError', 'KeyError', 'Exception', 'Custom1', 'TypeError'])]
+            return ['Broken', rng.choice(['ValueError', 'KeyError', 'Exception', 'Custom1', 'TypeError', 'StopIteration',
+                                           'LookupError', 'ZeroDivisionError'])]
         return ['Const', jv(rng.choice([None, 0, 1, '', 'x', [], [0], True, False]))]
     raise AssertionError(k)
 
